@@ -398,6 +398,24 @@ def run_special(res):
             res.violation(f"C11/special/reference-via-helper-module/{label.split('(')[0]}/{'raises:' + o.excname if not o.ok else 'differs'}",
                           f"{label} issued by a module that binds the name (to a plain alias / an import under another name) through a helper of another module -> {short(o.val if o.ok else o.exc, 100)}; expected {want!r}",
                           {"kind": "special", "desc": "string reference through a helper module"})
+    # a qualifier reached through a TEXTUAL carrier: a string reference to a name bound to ClassVar[...] / Final[...], a string alias spelling one
+    cold.clear_all()
+    qm = prelude.mkmod("tlg_c11_qualtext", "import typing\nUserId = typing.NewType('UserId', int)\nCounter = typing.ClassVar[UserId]\nFrozen = typing.Final[UserId]\n"
+                                           "CA = typing.TypeAliasType('CA', 'typing.ClassVar[int]')\nFA = typing.TypeAliasType('FA', 'typing.Final[int]')\n"
+                                           "def call1(f, *a, **k):\n    return f(*a, **k)\n").__dict__
+    for label, fn in (
+        ("strref->ClassVar", lambda: qm["call1"](typelib.unmarshal, "Counter", "5")), ("strref->Final", lambda: qm["call1"](typelib.unmarshal, "Frozen", "5")),
+        ("stralias->ClassVar", lambda: typelib.unmarshal(qm["CA"], "5")), ("stralias->Final", lambda: typelib.unmarshal(qm["FA"], "5")),
+        ("marshal:strref->ClassVar", lambda: qm["call1"](typelib.marshal, 5, t="Counter")),
+        ("codec:strref->ClassVar", lambda: qm["call1"](lambda: typelib.codec("Counter").decode(b"5"))),
+    ):
+        cold.clear_all()
+        o = call(fn)
+        res.evals += 1
+        res.outcomes.add(h64("special", "qualifier-text", label, "ok" if o.ok else o.excname))
+        if not (o.ok and same(o.val, 5)):
+            res.violation(f"C11/special/qualifier-through-text/{label}/{'raises:' + o.excname if not o.ok else 'differs'}",
+                          f"{label}: -> {short(o.val if o.ok else o.exc, 100)}; the unwrapped twin (int) gives 5", {"kind": "special", "desc": "ClassVar / Final behind a string reference or a string alias"})
     # Final[T] on a field of a PLAIN annotated class that also has a class-level default: the field is a field, both directions
     cold.clear_all()
     fm = prelude.mkmod("tlg_c11_finalplain", "import typing, decimal\nclass W:\n    a: typing.Final[decimal.Decimal] = decimal.Decimal(0)\n    b: str = 'x'\n    def __init__(self, a=decimal.Decimal(0), b='x'):\n        self.a, self.b = a, b\n"
